@@ -17,6 +17,9 @@ import (
 	"sort"
 	"strings"
 
+	"github.com/miekg/dns"
+	"github.com/semihalev/sdns/internal/dnsclient"
+	"github.com/semihalev/sdns/internal/dnsname"
 	"github.com/semihalev/sdns/internal/verif/vlib"
 	"github.com/semihalev/sdns/middleware/resolver"
 )
@@ -430,35 +433,54 @@ func localHex() []string {
 }
 
 func genL3(r *vlib.R, tier string, emit func(string)) {
-	per := 4
-	for _, mode := range []string{"cold", "warm"} {
+	world := func(mode string, qmin int, shapes []string) {
+		emit(fmt.Sprintf("l3 new %s %d", mode, qmin))
+		if mode == "warm" {
+			for _, v := range victimNames {
+				emit(fmt.Sprintf("l3 victim %s %s", v.n, typeName(v.t)))
+			}
+		}
+		k0 := r.Intn(8)
+		for i, s := range shapes {
+			emit(fmt.Sprintf("l3 attack %s %d", s, 1+(k0+i)%8))
+		}
+		order := r.Intn(len(victimNames))
+		for i := range victimNames {
+			v := victimNames[(i+order)%len(victimNames)]
+			emit(fmt.Sprintf("l3 victim %s %s", v.n, typeName(v.t)))
+		}
+		emit("l3 audit")
+	}
+	shuffled := func() []string {
 		shapes := append([]string(nil), allShapes...)
 		for i := len(shapes) - 1; i > 0; i-- {
 			j := r.Intn(i + 1)
 			shapes[i], shapes[j] = shapes[j], shapes[i]
 		}
-		for len(shapes) > 0 {
-			n := per
-			if n > len(shapes) {
-				n = len(shapes)
-			}
-			emit("l3 new " + mode)
-			if mode == "warm" {
-				for _, v := range victimNames {
-					emit(fmt.Sprintf("l3 victim %s %s", v.n, typeName(v.t)))
+		return shapes
+	}
+	// every shape, several per world, before / after the victim names were cached, with and without QNAME minimisation
+	for _, qmin := range []int{0, 3} {
+		for _, mode := range []string{"cold", "warm"} {
+			shapes := shuffled()
+			for len(shapes) > 0 {
+				n := 2 + r.Intn(4)
+				if n > len(shapes) {
+					n = len(shapes)
 				}
+				world(mode, qmin, shapes[:n])
+				shapes = shapes[n:]
 			}
-			k0 := r.Intn(8)
-			for i, s := range shapes[:n] {
-				emit(fmt.Sprintf("l3 attack %s %d", s, 1+(k0+i)%8))
-			}
-			shapes = shapes[n:]
-			order := r.Intn(len(victimNames))
-			for i := range victimNames {
-				v := victimNames[(i+order)%len(victimNames)]
-				emit(fmt.Sprintf("l3 victim %s %s", v.n, typeName(v.t)))
-			}
-			emit("l3 audit")
+		}
+	}
+	// every shape alone in a fresh world
+	rounds := 1
+	if tier == "thorough" {
+		rounds = 4
+	}
+	for i := 0; i < rounds; i++ {
+		for _, s := range shuffled() {
+			world(vlib.Pick(r, []string{"cold", "warm"}), vlib.Pick(r, []int{0, 3, 3, 5}), []string{s})
 		}
 	}
 	emit("l3 close")
@@ -571,6 +593,22 @@ func callOrder(file, fn string, callees ...string) []int {
 	return out
 }
 
+// (referral, authZone, qname): proper, self, self in other case, upward, root, sideways,
+// string-suffix look-alike, off path, referral == qname, escaped dot, from the root
+var probeTriples = [][3]string{
+	{"sub.evil.test.", "evil.test.", "x.sub.evil.test."},
+	{"evil.test.", "evil.test.", "x.sub.evil.test."},
+	{"EVIL.Test.", "evil.test.", "x.sub.evil.test."},
+	{"test.", "evil.test.", "x.sub.evil.test."},
+	{".", "evil.test.", "x.sub.evil.test."},
+	{"victim.test.", "evil.test.", "x.sub.evil.test."},
+	{"notevil.test.", "evil.test.", "x.notevil.test."},
+	{"other.evil.test.", "evil.test.", "x.sub.evil.test."},
+	{"x.sub.evil.test.", "evil.test.", "x.sub.evil.test."},
+	{"x\\.evil.test.", "evil.test.", "y.x\\.evil.test."},
+	{"test.", ".", "www.victim.test."},
+}
+
 func facts() map[string]any {
 	repo := os.Getenv("VERIF_REPO")
 	if repo == "" {
@@ -600,6 +638,28 @@ func facts() map[string]any {
 		}
 	}
 	_, pub := resolver.VerifC07UsableAddr(net.IPv4(198, 51, 100, 7))
+
+	// fixed probe tables (the same literals are in Props/C07.lean)
+	base := dns.Question{Name: "www.victim.test.", Qtype: dns.TypeA, Qclass: dns.ClassINET}
+	var qm []bool
+	for _, resp := range [][]dns.Question{
+		{{Name: "www.victim.test.", Qtype: 1, Qclass: 1}},
+		{{Name: "WWW.Victim.TEST.", Qtype: 1, Qclass: 1}},
+		{{Name: "mail.victim.test.", Qtype: 1, Qclass: 1}},
+		{{Name: "www.victim.test.", Qtype: 28, Qclass: 1}},
+		{{Name: "www.victim.test.", Qtype: 1, Qclass: 3}},
+		{},
+		{{Name: "www.victim.test.", Qtype: 1, Qclass: 1}, {Name: "www.victim.test.", Qtype: 1, Qclass: 1}},
+		{{Name: "xwww.victim.test.", Qtype: 1, Qclass: 1}},
+	} {
+		qm = append(qm, dnsclient.QuestionMatches(base, resp))
+	}
+	var prog []bool
+	var cmp []int
+	for _, t := range probeTriples {
+		prog = append(prog, resolver.VerifC07Progressing(t[0], t[1], t[2]))
+		cmp = append(cmp, dnsname.CompareSuffix(t[0], t[1]))
+	}
 	return map[string]any{
 		// processDelegation: the referral rule is applied before glue is read, before NS addresses are looked up and before the delegation is stored
 		"shape_delegation_guard_first": pd[0] >= 0 && pd[1] > pd[0] && pd[2] > pd[0] && pd[3] > pd[0],
@@ -611,9 +671,12 @@ func facts() map[string]any {
 		"shape_exchange_checks_question": ex[0] >= 0,
 		// both cache write paths filter before building the entry
 		"shape_store_filters_before_entry": st[0] >= 0 && st[1] > st[0] && rp[0] >= 0 && rp[1] > rp[0],
-		"usable_loopback_probe":           loopUsable,
-		"usable_local_probe":              localUsable,
-		"usable_public_probe":             pub,
+		"usable_loopback_probe":            loopUsable,
+		"usable_local_probe":               localUsable,
+		"usable_public_probe":              pub,
+		"question_match_probe":             qm,
+		"progressing_probe":                prog,
+		"compare_suffix_probe":             cmp,
 	}
 }
 
